@@ -227,6 +227,10 @@ namespace pika::mpi::experimental {
             mpi_data_.requests_.push_back(req_callback.request_);
             mpi_data_.callbacks_.push_back(
                 {std::move(req_callback.callback_function_), MPI_SUCCESS, req_callback.request_});
+#if defined(PIKA_VERIF)
+            PIKA_VERIF_POINT(2002, nullptr, (std::uint64_t) (std::uintptr_t) req_callback.request_,
+                mpi_data_.requests_.size());
+#endif
 
             PIKA_DETAIL_DP(mpi_debug<5>,
                 debug(str<>("CB queue => vector"), mpi_data_, ptr(req_callback.request_), "nulls",
@@ -244,6 +248,10 @@ namespace pika::mpi::experimental {
             PIKA_DETAIL_DP(
                 mpi_debug<5>, debug(str<>("CB queued"), ptr(req_callback.request_), mpi_data_));
 
+#if defined(PIKA_VERIF)
+            PIKA_VERIF_POINT(2001, nullptr, (std::uint64_t) (std::uintptr_t) req_callback.request_,
+                mpi_data_.single_thread_mode_ ? 1 : 0);
+#endif
             // can skip the queue and go direct to the polling vector when singlethreaded
             if (mpi_data_.single_thread_mode_)
                 add_to_request_callback_vector(std::move(req_callback));
@@ -331,6 +339,14 @@ namespace pika::mpi::experimental {
             // and trim off the space we didn't need
             mpi_data_.requests_.resize(pos);
             mpi_data_.callbacks_.resize(pos);
+#if defined(PIKA_VERIF)
+            PIKA_VERIF_POINT(2004, nullptr, size, pos);
+            for (size_t i = 0; i < pos; ++i)
+                PIKA_VERIF_POINT(2005, reinterpret_cast<void const*>(i),
+                    (std::uint64_t) (std::uintptr_t) mpi_data_.requests_[i],
+                    (std::uint64_t) (std::uintptr_t) mpi_data_.callbacks_[i].request_);
+            PIKA_VERIF_POINT(2010, nullptr, pos, 0);
+#endif
         }
 
 #ifdef OMPI_HAVE_MPI_EXT_CONTINUE
@@ -397,6 +413,11 @@ namespace pika::mpi::experimental {
                     debug(str<>("Ready CB invoke"), ptr(ready_callback_.request_),
                         ready_callback_.err_));
 
+#if defined(PIKA_VERIF)
+                PIKA_VERIF_POINT(2006, nullptr,
+                    (std::uint64_t) (std::uintptr_t) ready_callback_.request_,
+                    (std::uint64_t) ready_callback_.err_);
+#endif
                 // decrement before invoking callback : race if invoked code checks in_flight
                 --mpi_data_.all_in_flight_;
                 PIKA_INVOKE(std::move(ready_callback_.cb_), ready_callback_.err_);
@@ -424,6 +445,9 @@ namespace pika::mpi::experimental {
                     }
                     return polling_status::idle;
                 }
+#if defined(PIKA_VERIF)
+                PIKA_VERIF_POINT(2008, nullptr, 0, 0);
+#endif
 
                 if constexpr (mpi_debug<5>.is_enabled())
                 {
@@ -480,6 +504,12 @@ namespace pika::mpi::experimental {
                                 for (int i = 0; i < num_completed; ++i)
                                 {
                                     size_t index = indices_vector_[i];
+#if defined(PIKA_VERIF)
+                                    PIKA_VERIF_POINT(2003, nullptr, req_init + index,
+                                        (std::uint64_t) (std::uintptr_t)
+                                            mpi_data_.callbacks_[req_init + index]
+                                                .request_);
+#endif
                                     mpi_data_.ready_requests_.enqueue(
                                         {std::move(mpi_data_.callbacks_[req_init + index].cb_),
                                             mpi_data_.callbacks_[req_init + index].request_,
@@ -502,6 +532,10 @@ namespace pika::mpi::experimental {
                         {
                             size_t index = static_cast<size_t>(rindex);
                             event_handled = true;
+#if defined(PIKA_VERIF)
+                            PIKA_VERIF_POINT(2003, nullptr, index,
+                                (std::uint64_t) (std::uintptr_t) mpi_data_.callbacks_[index].request_);
+#endif
                             mpi_data_.ready_requests_.enqueue(
                                 {std::move(mpi_data_.callbacks_[index].cb_),
                                     mpi_data_.callbacks_[index].request_, status});
@@ -532,6 +566,11 @@ namespace pika::mpi::experimental {
                 PIKA_DETAIL_DP(mpi_debug<5>,
                     debug(str<>("CB invoke"), ptr(ready_callback_.request_), ready_callback_.err_));
 
+#if defined(PIKA_VERIF)
+                PIKA_VERIF_POINT(2006, nullptr,
+                    (std::uint64_t) (std::uintptr_t) ready_callback_.request_,
+                    (std::uint64_t) ready_callback_.err_);
+#endif
                 // decrement before invoking callback : race if invoked code checks in_flight
                 --mpi_data_.all_in_flight_;
                 PIKA_INVOKE(std::move(ready_callback_.cb_), ready_callback_.err_);
@@ -588,6 +627,10 @@ namespace pika::mpi::experimental {
                         debug(
                             str<>("CB invoke"), ptr(mpi_data_.callbacks_[index].request_), status));
 
+#if defined(PIKA_VERIF)
+                    PIKA_VERIF_POINT(2009, nullptr, index,
+                        (std::uint64_t) (std::uintptr_t) mpi_data_.callbacks_[index].request_);
+#endif
                     // Remove the request from our vector to prevent retesting
                     mpi_data_.requests_[index] = MPI_REQUEST_NULL;
 
